@@ -332,7 +332,7 @@ def register(reg):
         max_paths = 20000
 
         def setup(self, c):
-            c.st.ghost["list_elem_kind"] = {"closing_connections": "ref:" + CI}
+            c.st.ghost["list_elem_kind"] = {"*": "ref:" + CI}
             nb = c.new(c.self, "Pool._network_backend")
             c.eng.assume(c.st, nb.t > 0)
 
@@ -371,10 +371,10 @@ def register(reg):
             evs = c.since_cut({"list.remove", "list.append", "ci.is_closed"})
             goals = []
             for i, e in enumerate(evs):
-                if e.name == "list.remove" and e.data["target"] == "self._connections":
+                if e.name == "list.remove" and e.data["target"] == "Pool._connections":
                     x = e.data["value"].t
                     closed = [z3.And(k.data["conn"].t == x, k.data["result"].t) for k in evs if k.name == "ci.is_closed"]
-                    queued = [k.data["value"].t == x for k in evs[i:] if k.name == "list.append" and k.data["target"] == "closing_connections"]
+                    queued = [k.data["value"].t == x for k in evs[i:] if k.name == "list.append" and k.data["target"] == "local"]
                     goals.append(z3.Or(*(closed + queued)) if closed + queued else z3.BoolVal(False))
             return z3.And(*goals) if goals else True
 
@@ -384,9 +384,9 @@ def register(reg):
             evs = c.since_cut(None)
             if ordinal == 0:
                 # reasons for dropping a connection in the clean-up pass (C09)
-                rem = [e for e in evs if e.name == "list.remove" and e.data["target"] == "self._connections"]
+                rem = [e for e in evs if e.name == "list.remove" and e.data["target"] == "Pool._connections"]
                 obs = {n: [e for e in evs if e.name == "ci." + n] for n in ("is_closed", "has_expired", "is_idle")}
-                conn = c.st.env.get("connection")
+                conn = c.interp.loop_var(c.st, ordinal)
                 if rem:
                     x = rem[0].data["value"].t
                     before = rem[0].data["before"].t
@@ -404,7 +404,7 @@ def register(reg):
                         expired = z3.Select(c.eng.heap_arr(c.st, "CI.expired", BoolS), conn.t)
                         out.append(("closed_and_expired_connections_never_stay", ("C09", "C06"), z3.And(z3.Not(closed), z3.Not(expired))))
             if ordinal == 1:
-                pr = c.st.env.get("pool_request")
+                pr = c.interp.loop_var(c.st, 1)
                 assigns = [e for e in evs if e.name == "pr.assign"]
                 creates = [e for e in evs if e.name == "pool.create_connection"]
                 cur = conn_seq(c)
@@ -453,11 +453,11 @@ def register(reg):
                 out.append(("queued_requests_scanned_in_arrival_order", ("C07",), ev.data["seq"].t == queued))
             if ev.name == "pool.create_connection":
                 cur = conn_seq(c)
-                pr = c.st.env.get("pool_request")
+                pr = c.interp.loop_var(c.st, 1)
                 x = z3.Const("ax", IntS)
                 if isinstance(pr, VRef):
                     origin = ev.data["origin"]
-                    evicted = [e for e in c.since_cut({"list.remove"}) if e.data["target"] == "self._connections"]
+                    evicted = [e for e in c.since_cut({"list.remove"}) if e.data["target"] == "Pool._connections"]
                     scanned = evicted[0].data["before"].t if evicted else cur
                     avail = filter_map(scanned, x, z3.And(origin_fields_equal(c.eng, c.st, origin, VRef(z3.Select(c.eng.heap_arr(c.st, "CI.origin", IntS), x), ORIGIN)), z3.Select(c.eng.heap_arr(c.st, "CI.avail", BoolS), x)), x, IntS)
                     out.append(("reuse_before_create", ("C09",), z3.Length(avail) == 0))
@@ -465,9 +465,9 @@ def register(reg):
                     url = c.new(req, "Request.url")
                     out.append(("created_for_the_requests_origin", ("C10", "C01"), z3.And(F(c, origin, "Origin.scheme") == F(c, url, "URL.scheme"), F(c, origin, "Origin.host") == F(c, url, "URL.host"))))
                 out.append(("create_only_below_the_limit", ("C04",), z3.Length(cur) < self.bound(c)))
-                evict = [e for e in c.since_cut({"list.remove"}) if e.data["target"] == "self._connections"]
+                evict = [e for e in c.since_cut({"list.remove"}) if e.data["target"] == "Pool._connections"]
                 out.append(("create_at_the_limit_only_after_evicting_one", ("C04",), z3.Or(z3.Length(cur) < F(c, s, "Pool._max_connections"), z3.BoolVal(len(evict) == 1))))
-            if ev.name == "list.remove" and ev.data["target"] == "self._connections" and any(e.name == "for.iter" and e.data["ordinal"] == 1 for e in c.trace):
+            if ev.name == "list.remove" and ev.data["target"] == "Pool._connections" and any(e.name == "for.iter" and e.data["ordinal"] == 1 for e in c.trace):
                 x = ev.data["value"].t
                 out.append(("eviction_only_of_an_idle_connection_at_the_limit", ("C09", "C04"), z3.And(z3.Select(c.eng.heap_arr(c.st, "CI.idle", BoolS), x), z3.Length(ev.data["before"].t) >= F(c, s, "Pool._max_connections"))))
             return out
@@ -478,9 +478,11 @@ def register(reg):
 
         def checks(self, c):
             r = c.result
-            cl = c.st.env.get("closing_connections")
-            same = isinstance(r, VSeq) and isinstance(cl, VSeq) and z3.eq(r.t, cl.t) or (isinstance(r, VList) and r is cl)
-            return [("returns_the_closing_list", ("C06",), bool(same))]
+            # the returned list is the local list the evicted connections were appended to (any name)
+            locals_ = [v for v in c.st.env.values() if isinstance(v, (VSeq, VList))]
+            same = any((isinstance(r, VSeq) and isinstance(v, VSeq) and z3.eq(r.t, v.t)) or (r is v) for v in locals_)
+            appended_elsewhere = [e for e in c.trace if e.name == "list.append" and e.data["target"] not in ("local", "Pool._connections")]
+            return [("returns_the_closing_list", ("C06",), bool(same) and not appended_elsewhere)]
 
         def exc_checks(self, c, exc):
             return []
@@ -498,7 +500,7 @@ def register(reg):
 
         def on_back_edge(self, c, ordinal):
             evs = c.since_cut({"ci.aclose"})
-            conn = c.st.env.get("connection")
+            conn = c.interp.loop_var(c.st, ordinal)
             ok = len(evs) == 1 and isinstance(conn, VRef)
             return [
                 ("closes_each_listed_connection", ("C06",), evs[0].data["conn"].t == conn.t if ok else False),
@@ -560,8 +562,12 @@ def register(reg):
             return [("limits_nonnegative", z3.And(F(c, s, "Pool._max_connections") >= 0, F(c, s, "Pool._max_keepalive_connections") >= 0))]
 
         def _pr(self, c):
-            pr = c.st.env.get("pool_request")
-            return pr if isinstance(pr, VRef) else None
+            # this flow's pool request: the object it appended to the queue (whatever the local is called)
+            mine = [e for e in c.trace if e.name == "list.append" and e.data["target"] == "Pool._requests"]
+            if mine:
+                return mine[0].data["value"]
+            pr = c.st.ghost.get("pool_request_ref")
+            return pr
 
         def loop_invariant(self, c, ordinal):
             pr = self._pr(c)
@@ -597,7 +603,7 @@ def register(reg):
             req = c.args["request"]
             out = []
             pr = self._pr(c)
-            if ev.name == "list.append" and ev.data["target"] == "self._requests":
+            if ev.name == "list.append" and ev.data["target"] == "Pool._requests":
                 v = ev.data["value"]
                 url = c.new(req, "Request.url")
                 known, _ = default_port_of(F(c, url, "URL.scheme"), [t for t in DEFAULT_PORT_TABLE if not t[0].startswith(b"socks")])
@@ -607,7 +613,8 @@ def register(reg):
                     ("enqueued_pool_request_wraps_the_callers_request", ("C01",), F(c, v, "PR.request") == req.t),
                 ]
                 my_requests(c.st).append((s.t, v.t))
-            if ev.name == "list.remove" and ev.data["target"] == "self._requests":
+                c.st.ghost["pool_request_ref"] = v
+            if ev.name == "list.remove" and ev.data["target"] == "Pool._requests":
                 out += [
                     ("request_dequeued_under_the_pool_lock", ("C08",), pool_lock_held(c, s)),
                     ("dequeues_own_request", ("C05",), ev.data["value"].t == pr.t if pr is not None else False),
@@ -660,7 +667,7 @@ def register(reg):
             out = []
             if exc.cls == UP:
                 return [("unsupported_protocol_touches_nothing", ("C15",), not c.events("list.append") and not c.events("ci.handle_request"))]
-            appended = [e for e in c.trace if e.name == "list.append" and e.data["target"] == "self._requests"]
+            appended = [e for e in c.trace if e.name == "list.append" and e.data["target"] == "Pool._requests"]
             if not appended:
                 return out
             tail = c.since_cut({"list.remove", "call:" + ASSIGN, "call:" + CLOSECONNS, "except"})
@@ -722,7 +729,7 @@ def register(reg):
                 ]
             if ev.name == "list.remove":
                 out += [
-                    ("dequeues_own_request_from_own_pool", ("C05",), z3.BoolVal(ev.data["target"] == "self._pool._requests") if True else False),
+                    ("dequeues_own_request_from_own_pool", ("C05",), z3.BoolVal(ev.data["target"] == "Pool._requests") if True else False),
                     ("dequeues_own_request", ("C05",), ev.data["value"].t == F(c, s, "PBS._pool_request")),
                     ("request_dequeued_under_the_pool_lock", ("C08",), pool_lock_held(c, pool)),
                 ]
